@@ -61,14 +61,14 @@ def register(reg):
 
     # rotations ENU <-> ECEF about the base
     BL, BP = "(glon(base) * 3.141592653589793 / 180.0)", "(glat(base) * 3.141592653589793 / 180.0)"
-    reg.add(Spec(OC + "ECEFCoords.toENUCoords", dict(self="ECEFCoords", base="ECEFCoords"), "ENUCoords", fresh=["ENUCoords", "ECEFCoords", "GeoCoords"],
+    reg.add(Spec(OC + "ECEFCoords.toENUCoords", dict(self="ECEFCoords", base="ECEFCoords"), "ENUCoords", fresh=["ENUCoords", "ECEFCoords", "GeoCoords"], frame_axiom=True,
                  ensures=[("new-object", "isnew(result)"),
                           ("east", "result.E == -(self.X - base.X) * sin(%s) + (self.Y - base.Y) * cos(%s)" % (BL, BL)),
                           ("north", "result.N == -(self.X - base.X) * cos(%s) * sin(%s) - (self.Y - base.Y) * sin(%s) * sin(%s) + (self.Z - base.Z) * cos(%s)"
                            % (BL, BP, BL, BP, BP)),
                           ("up", "result.U == (self.X - base.X) * cos(%s) * cos(%s) + (self.Y - base.Y) * sin(%s) * cos(%s) + (self.Z - base.Z) * sin(%s)"
                            % (BL, BP, BL, BP, BP))]))
-    reg.add(Spec(OC + "ENUCoords.toECEFCoords", dict(self="ENUCoords", base="ECEFCoords"), "ECEFCoords", fresh=["ENUCoords", "ECEFCoords", "GeoCoords"],
+    reg.add(Spec(OC + "ENUCoords.toECEFCoords", dict(self="ENUCoords", base="ECEFCoords"), "ECEFCoords", fresh=["ENUCoords", "ECEFCoords", "GeoCoords"], frame_axiom=True,
                  requires=["not isnan(self.E) and not isnan(self.N) and not isnan(self.U)"],
                  ensures=[("new-object", "isnew(result)"),
                           ("X", "result.X == -self.E * sin(%s) - self.N * cos(%s) * sin(%s) + self.U * cos(%s) * cos(%s) + base.X" % (BL, BL, BP, BL, BP)),
